@@ -146,6 +146,9 @@ type Violation struct {
 type Fault struct {
 	Err   error  // returned instead of running the body
 	Panic string // panic with this value instead of running the body
+	// PanicVal, if set, is the value panicked with instead of the string
+	// (an error, an errno, a runtime error: what real code panics with).
+	PanicVal interface{}
 	Short int    // ReadAt/WriteAt: transfer at most Short bytes (>0)
 }
 
@@ -639,6 +642,9 @@ func (fs *FS) fault(c *Call) bool {
 		c.Faulted = true
 		c.Panicked = true
 		simrt.Fault("backend.panic")
+		if f.PanicVal != nil {
+			panic(f.PanicVal)
+		}
 		panic(f.Panic)
 	}
 	if f.Err != nil {
@@ -1394,6 +1400,11 @@ func (h *Handle) Renamed(newDir p9.File, newName string) {
 	fs.begin(c)
 	defer fs.end(c)
 	// may not fail: faults are not applied here
+	if h.gone && h.Closes == 0 {
+		// the entry this handle named was unlinked or overwritten: later
+		// renames are about other files, even files of the same name
+		fs.viol("C08", "renamed-after-unlink", "Renamed", "Renamed(%s, %q) delivered to handle %d, whose entry (%s) had been removed: the file it is told about is not the one it denotes", th.Path(), newName, h.ID, h.Path())
+	}
 	if th != nil {
 		h.parent = th
 		h.cpath = append(append([]string{}, th.cpath...), newName)
@@ -1449,6 +1460,12 @@ func (h *Handle) GetXattr(attr string) ([]byte, error) {
 	}
 	v, ok := n.xattrs.Get2(attr)
 	if !ok {
+		// scripted mode: the generator decides what the attribute holds
+		c.RData = nil
+		fs.script(c)
+		if c.RData != nil {
+			return append([]byte{}, c.RData...), nil
+		}
 		c.Err = linux.ENODATA
 		return nil, c.Err
 	}
